@@ -8,7 +8,7 @@ import threading
 
 import beanquery
 from beanquery import query_compile as qc, query_env
-from harness.common import Result
+from harness.common import Result, pmap
 from harness import ledger
 
 
@@ -83,6 +83,12 @@ def _install_tick():
         query_env.function([t], t, pass_row=True, name='tick')(body)
     query_env.function([beanquery.types.Any], object, pass_row=True, name='tick')(body)
 
+    # ctick(x): a pure function, hence folded while the statement is being compiled: a scheduling point inside compilation
+    def cbody(x):
+        return body(None, x)
+    for t in (str, int):
+        query_env.function([t], t, name='ctick')(cbody)
+
 
 QUERIES = [
     ("SELECT tick(account), balance, tick(number), balance WHERE account ~ 'Assets'", None),
@@ -91,6 +97,11 @@ QUERIES = [
     ("SELECT tick(narration), %s, number WHERE number > %s ORDER BY tick(number)", ('p', 10)),
     ("SELECT tick(account), balance, balance FROM OPEN ON 2020-01-15 CLOSE ON 2020-02-10", None),
     ("SELECT tick(payee), first(tick(date)), last(balance) GROUP BY 1 ORDER BY 1", None),
+    # scheduling points in the output phase of an aggregate query (between finalize and the read of the aggregate values)
+    ("SELECT account, tick(count(*)), sum(number), tick(first(date)) GROUP BY account ORDER BY account", None),
+    # scheduling points inside compilation, before and after the placeholders are bound; same text, different parameters
+    ("SELECT ctick('a'), account, number WHERE number > %(min)s AND ctick('b') = 'b' AND number < %(max)s ORDER BY number", {'min': 10, 'max': 100000}),
+    ("SELECT ctick('a'), account, number WHERE number > %(min)s AND ctick('b') = 'b' AND number < %(max)s ORDER BY number", {'min': 100, 'max': 1000}),
 ]
 
 
@@ -143,16 +154,25 @@ def run_schedule(qidx, schedule, shared, src=ledger.LEDGER_A):
     return None
 
 
+def _job(job):
+    qidx, si, sc, shared = job
+    try:
+        return run_schedule(qidx, sc, shared)
+    except Exception as e:
+        return (-1, f'harness {type(e).__name__}: {e}', None, None)
+
+
 def run(tier, seed):
     res = Result('pairs and triples of queries (running balance referenced twice per row, aggregates, IN-subquery consulting the balance, parameters, OPEN/CLOSE, DISTINCT) on one '
                  'shared connection and on separate connections; schedules: round-robin at every tick, long runs of one thread, seeded random switch sequences; each interleaved '
                  'run compared with serial execution on fresh connections; distinct = (queries, schedule, shared)')
     rng = random.Random(seed)
     n = len(QUERIES)
-    combos = list(itertools.combinations_with_replacement(range(n), 2)) + [(0, 2, 4), (1, 3, 5), (0, 0, 0), (2, 2, 1)]
+    combos = list(itertools.combinations_with_replacement(range(n), 2)) + [(0, 2, 4), (1, 3, 5), (0, 0, 0), (2, 2, 1), (6, 6, 1), (7, 8, 7)]
     nrand = 2 if tier == 'quick' else 40
     if tier == 'quick':
-        combos = [c for i, c in enumerate(combos) if i % 2 == 0 or len(c) == 3]
+        combos = [c for i, c in enumerate(combos) if i % 2 == 0 or len(c) == 3 or c in ((6, 6), (7, 8), (1, 6), (3, 7))]
+    jobs = []
     for qidx in combos:
         k = len(qidx)
         schedules = [[i % k for i in range(4000)], [0] * 7 + [1] * 5 + [i % k for i in range(4000)], [(i // 3) % k for i in range(4000)]]
@@ -160,15 +180,14 @@ def run(tier, seed):
             schedules.append([rng.randrange(k) for _ in range(4000)])
         for si, sc in enumerate(schedules):
             for shared in (True, False):
-                res.case((qidx, si if si < 3 else tuple(sc[:40]), shared), {'queries': [QUERIES[i][0][:60] for i in qidx], 'schedule': si, 'shared_connection': shared})
-                try:
-                    bad = run_schedule(qidx, sc, shared)
-                except Exception as e:
-                    bad = (-1, f'harness {type(e).__name__}: {e}', None, None)
-                if bad:
-                    res.violation('h20:interleaving:' + QUERIES[qidx[bad[0]]][0][:50] if bad[0] >= 0 else 'h20:harness',
-                                  'queries executed concurrently return the same results as when executed one after another',
-                                  {'queries': list(qidx), 'schedule': sc[:60], 'shared': shared}, bad[3] if bad[3] is not None else bad[1], bad[2])
+                jobs.append((qidx, si, sc, shared))
+    # every job runs its threads under the deterministic scheduler inside one worker process (jobs are independent)
+    for (qidx, si, sc, shared), bad in zip(jobs, pmap(_job, jobs, jobs=8, chunk=4, force=True)):
+        res.case((qidx, si if si < 3 else tuple(sc[:40]), shared), {'queries': [QUERIES[i][0][:60] for i in qidx], 'schedule': si, 'shared_connection': shared})
+        if bad:
+            res.violation('h20:interleaving:' + QUERIES[qidx[bad[0]]][0][:50] if bad[0] >= 0 else 'h20:harness',
+                          'queries executed concurrently return the same results as when executed one after another',
+                          {'queries': list(qidx), 'schedule': sc[:60], 'shared': shared}, bad[3] if bad[3] is not None else bad[1], bad[2])
     res.case('threadsafety')
     if beanquery.threadsafety != 2:
         res.violation('h20:threadsafety', 'the module advertises DB-API thread safety level 2', {}, beanquery.threadsafety, 2)
